@@ -35,6 +35,7 @@ import deep.logging
 from deep.api.tracepoint.eventsnapshot import WATCH_SOURCE_CAPTURE
 from deep.logging import logging
 from deep.api.tracepoint import WatchResult, Variable
+from deep.processor.variable_processor import safe_str
 from deep.processor.variable_set_processor import VariableSetProcessor, VariableCacheProvider
 from deep.utils import str2bool
 
@@ -82,7 +83,8 @@ class ActionContext(abc.ABC):
             success, result = self.trigger_context.try_evaluate_expression(watch)
             if not success:
                 # the expression could not be evaluated, so this is an error result (result is the exception)
-                return WatchResult(source, watch, None, str(result)), {}, str(result)
+                error = safe_str(result)
+                return WatchResult(source, watch, None, error), {}, error
             variable_id, log_str = var_processor.process_variable(watch, result)
             if variable_id.vid is None:
                 # the value was not recorded (the variable limit has been reached), so there is nothing to point at
@@ -91,7 +93,8 @@ class ActionContext(abc.ABC):
             return WatchResult(source, watch, variable_id), var_processor.var_lookup, log_str
         except BaseException as e:
             logging.exception("Error evaluating watch %s", watch)
-            return WatchResult(source, watch, None, str(e)), {}, str(e)
+            error = safe_str(e)
+            return WatchResult(source, watch, None, error), {}, error
 
     def process_capture_variable(self, name: str, variable: any) -> Tuple[WatchResult, Dict[str, Variable], str]:
         """
